@@ -1,1 +1,8 @@
 import SygmaModel.Base
+import SygmaModel.Model.C14
+import SygmaModel.Generated.C14
+import SygmaModel.Props.C14
+import SygmaModel.Oblig.C14
+import SygmaModel.Drv.All
+import SygmaModel.Drv.C14
+import SygmaModel.Drv.Util
